@@ -726,10 +726,22 @@ def main():
         from translate_search import emit_search  # noqa
 
         nsr = emit_search(outdir)
+        from translate_solver import emit_solver  # noqa
+
+        nsv = emit_solver(outdir)
+        from translate_constraints import emit_constraints  # noqa
+
+        nct = emit_constraints(outdir)
+        from translate_regex import emit_regex  # noqa
+
+        nrx = emit_regex(outdir)
+        from translate_group import emit_group  # noqa
+
+        ngr = emit_group(outdir)
     except TranslateError as e:
         print(str(e))
         sys.exit(2)
-    print(f"translate: {nr} parser rules, {nc} instruction classes, {nl} leaf functions, {nk} key/index classification functions, {ns} wrapper functions, {na} condition-combination functions, {ng} global-graph/neighbourhood functions, {nsr} path-search functions -> {outdir}")
+    print(f"translate: {nr} parser rules, {nc} instruction classes, {nl} leaf functions, {nk} key/index classification functions, {ns} wrapper functions, {na} condition-combination functions, {ng} global-graph/neighbourhood functions, {nsr} path-search functions, {nsv} worklist-solver functions, {nct} constraint-initialisation functions, {nrx} regex-engine functions, {ngr} group-verdict functions -> {outdir}")
 
 
 if __name__ == "__main__":
